@@ -25,6 +25,9 @@ fn session_of(name: &'static str, text: &str, extra: &[(&str, Value)]) -> Sess {
         s.request(m, p.clone());
     }
     s.msgs.push(request(1000, "shutdown", Value::Null));
+    // a request behind shutdown (answered with InvalidRequest): bytes that follow the shutdown
+    // frame in the same read must not get lost
+    s.msgs.push(request(1001, "textDocument/foldingRange", doc_request_params("textDocument/foldingRange", URI)));
     s.msgs.push(notification("exit", Value::Null));
     Sess { name, bytes: s.bytes() }
 }
@@ -39,6 +42,7 @@ pub fn sessions(tier: Tier) -> Vec<Sess> {
             notification("initialized", Value::Null),
             json!({"jsonrpc": "2.0", "method": "x"}), // 30-byte body: two-digit Content-Length
             request(2, "shutdown", Value::Null),
+            request(3, "x/afterShutdown", Value::Null),
             notification("exit", Value::Null),
         ];
         v.push(Sess { name: "minimal", bytes: msgs.iter().flat_map(frame).collect() });
